@@ -330,27 +330,42 @@ Qed.
 
 Definition exact_percent (s : thr) : Q := inject_Z (t_thr s) / inject_Z (t_non s + t_thr s) * 100.
 
-(* the decision, state-wise: denied iff enough responses were counted since the last reset and the
-   two-decimal percentage of throttled ones exceeds deny_request_at; the window restarts at the first
-   call later than sampling_period after the previous restart *)
+(* the decision, state-wise: denied iff enough responses were counted since the last reset and the exact share of throttled ones
+   exceeds deny_request_at percent (throttled * 100 > deny_request_at * total); the window restarts at the first call later than
+   sampling_period after the previous restart *)
 Theorem throttle_decision s now s' b :
-  0 <= t_deny s ->
   allow_request s now = Ok (s', b) ->
-  (b = false <-> (t_sample s <= inject_Z (t_non s + t_thr s) /\ (t_non s + t_thr s <> 0)%Z /\ t_deny s < round2 (exact_percent s)))
+  (b = false <-> (t_sample s <= inject_Z (t_non s + t_thr s) /\ (t_non s + t_thr s <> 0)%Z
+                  /\ t_deny s * inject_Z (t_non s + t_thr s) < inject_Z (t_thr s * 100)))
   /\ (s' = if qlt (t_period s) (now - t_upd s)
            then {| t_non := 0; t_thr := 0; t_upd := now; t_period := t_period s; t_sample := t_sample s; t_deny := t_deny s |}
            else s).
 Proof.
-  intros Hdeny. unfold allow_request, percent_throttles, exact_percent.
-  destruct (qlt (inject_Z (t_non s + t_thr s)) (t_sample s)) eqn:Es.
-  - intros H. injection H as <- <-. split; [|reflexivity]. apply qlt_true in Es.
-    split; [intros Hb|intros [Hc _]; lra].
-    apply Qle_bool_iff in Hdeny. congruence.
-  - apply qlt_false in Es. destruct ((t_non s + t_thr s =? 0)%Z) eqn:Ez.
-    + intros H. injection H as <- <-. split; [|reflexivity]. apply Z.eqb_eq in Ez.
-      split; [intros Hb; apply Qle_bool_iff in Hdeny; congruence|]. intros [_ [Hnz _]]. congruence.
-    + apply Z.eqb_neq in Ez. intros H. injection H as <- <-. split; [|reflexivity]. split.
-      * intros Hb. split; [exact Es|]. split; [exact Ez|]. apply qlt_true. unfold qlt. rewrite Hb. reflexivity.
+  unfold allow_request, percent_throttles.
+  assert (forall x : res Q, (match x with Ok _ => True | Err _ => False end) ->
+          match x with Err e => Err e | Ok _ => Ok (if qlt (t_period s) (now - t_upd s)
+              then {| t_non := 0; t_thr := 0; t_upd := now; t_period := t_period s; t_sample := t_sample s; t_deny := t_deny s |} else s,
+              qlt (inject_Z (t_non s + t_thr s)) (t_sample s) || (t_non s + t_thr s =? 0)%Z
+              || Qle_bool (inject_Z (t_thr s * 100)) (t_deny s * inject_Z (t_non s + t_thr s))) end = Ok (s', b) ->
+          (s' = if qlt (t_period s) (now - t_upd s)
+           then {| t_non := 0; t_thr := 0; t_upd := now; t_period := t_period s; t_sample := t_sample s; t_deny := t_deny s |} else s)
+          /\ b = qlt (inject_Z (t_non s + t_thr s)) (t_sample s) || (t_non s + t_thr s =? 0)%Z
+                 || Qle_bool (inject_Z (t_thr s * 100)) (t_deny s * inject_Z (t_non s + t_thr s))) as Hgen.
+  { intros [q|e] Hx H; [|destruct Hx]. injection H as <- <-. split; reflexivity. }
+  intros H.
+  assert (s' = (if qlt (t_period s) (now - t_upd s)
+           then {| t_non := 0; t_thr := 0; t_upd := now; t_period := t_period s; t_sample := t_sample s; t_deny := t_deny s |} else s)
+          /\ b = qlt (inject_Z (t_non s + t_thr s)) (t_sample s) || (t_non s + t_thr s =? 0)%Z
+                 || Qle_bool (inject_Z (t_thr s * 100)) (t_deny s * inject_Z (t_non s + t_thr s))) as [Hs Hb].
+  { cbv zeta in H. destruct (qlt (inject_Z (t_non s + t_thr s)) (t_sample s)); [|destruct ((t_non s + t_thr s =? 0)%Z)];
+      injection H as <- <-; split; reflexivity. }
+  split; [|exact Hs]. rewrite Hb.
+  destruct (qlt (inject_Z (t_non s + t_thr s)) (t_sample s)) eqn:Es; cbn [orb].
+  - apply qlt_true in Es. split; [discriminate|intros [Hc _]; lra].
+  - apply qlt_false in Es. destruct ((t_non s + t_thr s =? 0)%Z) eqn:Ez; cbn [orb].
+    + apply Z.eqb_eq in Ez. split; [discriminate|intros [_ [Hnz _]]; congruence].
+    + apply Z.eqb_neq in Ez. split.
+      * intros Hd. split; [exact Es|]. split; [exact Ez|]. apply qlt_true. unfold qlt. rewrite Hd. reflexivity.
       * intros [_ [_ Hd]]. apply qlt_true in Hd. unfold qlt in Hd. apply negb_true_iff in Hd. exact Hd.
 Qed.
 
